@@ -438,7 +438,47 @@ def rule_template_arg(run):
     eqhash.run_rule(run, "F-EQ", ["cohdl/std/_fixed.py", "cohdl/std/_template.py", "cohdl/std/utility.py", "cohdl/std/enum.py", "cohdl/std/bitfield.py"])   # fixed-point formats are cache keys of the serialised types
 
 
-RULES = [rule_core, rule_record, rule_std_array, rule_bitfield, rule_adapters, rule_template, rule_value_qualifier, rule_views, rule_template_arg]
+def rule_bitfield_views(run):
+    run.begin(
+        "C17.bitfield-views",
+        "the members of a BitField are VIEWS of its vector: bit / vector fields are built over self._vec itself and a nested "
+        "BitField over a slice of it with the Ref qualifier (whatever qualifier the parent has - a Signal/Variable built "
+        "from the slice would be a detached copy: writes to the nested fields never reach the parent's bits, to_bits misses them)",
+        floor=2,
+    )
+    bf = run.idx.mod(BF)
+    f = bf.func("BitField.__init__")
+    n = 0
+    for c in walk_local(f.node):
+        if not (isinstance(c, ast.Call) and dotted(c.func) == "setattr" and len(c.args) == 3 and isinstance(c.args[2], ast.Call)):
+            continue
+        ctor = c.args[2]
+        if not ctor.args:
+            continue
+        arg = ctor.args[0]
+        # where does the constructor argument come from?
+        origin = src(arg)
+        if isinstance(arg, ast.Name):
+            asg = [a for a in walk_local(f.node) if isinstance(a, ast.Assign) and dotted(a.targets[0]) == arg.id]
+            origin = src(asg[0].value) if asg else origin
+        if "self._vec" not in origin:
+            continue
+        n += 1
+        whole = origin == "self._vec"
+        q = [k for k in ctor.keywords if k.arg == "_qualifier_"]
+        if whole:
+            ok = not q or dotted(q[0].value) == "Ref"
+            exp = "the field class is built over self._vec itself (field classes slice by reference)"
+        else:
+            ok = bool(q) and dotted(q[0].value) == "Ref"
+            exp = "_qualifier_=Ref for a nested BitField over a slice of self._vec"
+        run.ob(ok, "BitField.__init__", file=bf.rel, line=c.lineno, detail=f"member<-{origin[:40]}", expected=exp, found=src(ctor)[:70])
+    if n < 2:
+        raise AnalysisError("BitField.__init__: member construction not recognised")
+    run.end()
+
+
+RULES = [rule_core, rule_record, rule_std_array, rule_bitfield, rule_adapters, rule_template, rule_value_qualifier, rule_views, rule_template_arg, rule_bitfield_views]
 LEVEL = "other"
 EXPLANATION = (
     "Serialisers are interpreted abstractly over symbolic bits (sa/absint.py; cohdl is never imported): for Bit, the "
